@@ -53,6 +53,7 @@ func (c *Compactor) majorCompaction(levels *LevelList, sar SAR) (*ChangeSet, err
 	// Go through all non-base levels from oldest to newest and pick tables to
 	// merge into base level.
 	var tablesToMerge []*Table
+selectTables:
 	for level := range levels.AscendLevels(1) {
 		tableIter := slices.SortedFunc(level.AllTables(), OrderOldToNew)
 
@@ -62,7 +63,10 @@ func (c *Compactor) majorCompaction(levels *LevelList, sar SAR) (*ChangeSet, err
 			sar = sar.WithCompactedBytes(int64(candidate.Size()))
 			tablesToMerge = append(tablesToMerge, candidate)
 			if sar.Percentage() < c.MaxSizeAmplificationPercent {
-				break
+				// Stop selecting altogether: taking tables from a newer level
+				// while older tables of this level stay behind would move
+				// newer data beneath older data.
+				break selectTables
 			}
 		}
 	}
